@@ -58,6 +58,10 @@ func c17Scenarios(quick bool) []EpochScenario {
 	for i, pol := range pols {
 		scs = append(scs, EpochScenario{Seed: "hbt", Cfg: []int{0, 5, 7, 2}[i%4], Fit: []int{2, 4, 5, 6}[i%4], Policy: pol, Mode: "whole", Epochs: 3})
 	}
+	// a modular start genome whose module nodes are mostly attached through the control gene only, under mating
+	for i, pol := range pols {
+		scs = append(scs, EpochScenario{Seed: "modular3", Cfg: []int{6, 4, 3, 10}[i%4], Fit: []int{2, 4, 5, 6}[i%4], Policy: pol, Mode: "whole", Epochs: 4})
+	}
 	return scs
 }
 
